@@ -471,13 +471,13 @@ def problems_hist(c, io, drv):
                     return out
                 for part in ("num", "den"):
                     got = _trim(sec[part], len(spec["secs"][k][part]))
-                    if not b._close_list(got, spec["secs"][k][part], b.TOL):
+                    if not b._ulp_close(got, spec["secs"][k][part]):
                         out.append(("spec", name + ":sample-by-sample",
                                     "step %d (design %d, section %d) %s: %r; the constant design for the values this "
                                     "instant must get (%r, %r) has %r" % (
                                         t, op[1], k, part, [_fl(x) for x in got], _fl(spec["v1"]), _fl(spec["v2"]),
                                         [_fl(x) for x in spec["secs"][k][part]])))
-                    if not b._close_list(got, model["secs"][k][part], b.TOL):
+                    if not b._ulp_close(got, model["secs"][k][part]):
                         out.append(("model", name + ":sample-by-sample", "step %d section %d %s: impl %r model %r" % (
                             t, k, part, [_fl(x) for x in got], [_fl(x) for x in model["secs"][k][part]])))
                 if contracts:
